@@ -20,6 +20,7 @@ class Loop:
 	hints_head: list[str] = field(default_factory=list)  # lemma calls executed at the loop head (after assuming the invariant)
 	hints_end: list[str] = field(default_factory=list)   # ... at the end of the body, before re-establishing the invariant
 	hints_exit: list[str] = field(default_factory=list)  # ... on loop exit
+	hints_break: list[str] = field(default_factory=list)  # ... at a `break` inside the body (prev() is the loop-head state)
 
 
 @dataclass
@@ -31,6 +32,7 @@ class Contract:
 	ensures: list[str] = field(default_factory=list)
 	raises: dict[str, str | None] = field(default_factory=dict)  # class -> exact condition over the pre-state, or None = may raise
 	modifies: list[str] = field(default_factory=list)
+	ghost_args: dict[str, str] = field(default_factory=dict)  # '<callee qualname>.<ghost>' -> expression over this function's variables: the ghost argument passed at calls of that callee
 	exit_asserts: list[str] = field(default_factory=list)  # facts over the function's locals at every normal return (checked; not visible to callers)
 	loops: dict[int, Loop] = field(default_factory=dict)
 	types: dict[str, str] = field(default_factory=dict)  # parameter / local / return types where annotations are missing or abstract
